@@ -239,7 +239,10 @@ fn dump_api(pset: &api::PolicySet, universe: &BTreeSet<String>) -> J {
     }
     json!({"policies": policies, "templates": templates, "linked": linked, "get": get, "get_template": get_t,
            "num_policies": pset.num_of_policies(), "num_templates": pset.num_of_templates(),
-           "is_empty": pset.is_empty()})
+           "is_empty": match std::panic::catch_unwind(std::panic::AssertUnwindSafe(|| pset.is_empty())) {
+               Ok(b) => json!(b),
+               Err(_) => json!("debug_assert failed"),
+           }})
 }
 
 /// apply the operations to `pset`; `out` receives one record per operation when given
@@ -363,8 +366,21 @@ fn history_api(v: &J) -> Result<J, String> {
     let es = util::entities(v.get("entities").ok_or("no entities")?)?;
     let mut universe = universe_of(v);
     let ops = v.get("ops").and_then(|x| x.as_array()).ok_or("no ops")?;
-    let mut pset = api::PolicySet::new();
+    // optional start state: PolicySet::from_json_value (EST policy set) instead of the empty set
+    let mut pset = match v.get("init_json") {
+        Some(j) => match api::PolicySet::from_json_value(j.clone()) {
+            Ok(p) => p,
+            Err(e) => return Ok(json!({"init_error": format!("{e:?}").chars().take(300).collect::<String>()})),
+        },
+        None => api::PolicySet::new(),
+    };
     let mut out = vec![];
+    if v.get("init_json").is_some() {
+        let core: &ast::PolicySet = pset.as_ref();
+        out.push(json!({"result": "init", "renaming": J::Null, "api": dump_api(&pset, &universe),
+                        "ast": dump_ast(core, &universe), "responses": respond(core, &qs, &es),
+                        "to_json": pset.clone().to_json().map_err(|e| format!("{e:?}"))}));
+    }
     run_api(&mut pset, ops, &mut universe, &qs, &es, Some(&mut out))?;
     Ok(json!({"steps": out, "probes": probes(v, &qs, &es)?}))
 }
